@@ -214,7 +214,7 @@ def gen_chain(rng, shape, max_len, fail=None, batchy=0.15):
         schema = ('rec', {k: 'col' for k in specs[-2]['clear']})
       continue
     if op == 'select':
-      if kind != 'rec' or want_fail:
+      if kind != 'rec' or want_fail or not body:
         continue
       names = list(body)
       rng.shuffle(names)
